@@ -1,5 +1,6 @@
 // Native oracle for gosym: evaluates yardl's participle-generated parsers (a foreign, reflection-driven
-// library parameterised by yardl's grammar structs and lexer rules) on concrete strings.  Built from the
+// library parameterised by yardl's grammar structs and lexer rules) and the yaml.v3 text parser (kind
+// "yaml.Documents": concrete YAML text -> the node tree of every document) on concrete strings.  Built from the
 // tree under test on every run (go build -overlay); see engine/gosym/interp/yaml_intrinsics.go.
 //
 // Values are encoded generically by reflection: structs as objects keyed by field name (exported fields),
@@ -9,8 +10,11 @@ package main
 
 import (
 	"bufio"
+	"bytes"
+	"encoding/base64"
 	"encoding/json"
 	"fmt"
+	"io"
 	"math/big"
 	"os"
 	"reflect"
@@ -18,6 +22,7 @@ import (
 	"github.com/alecthomas/participle/v2"
 	"github.com/microsoft/yardl/tooling/pkg/dsl"
 	"github.com/microsoft/yardl/tooling/pkg/dsl/parser"
+	"gopkg.in/yaml.v3"
 )
 
 var bigIntType = reflect.TypeOf(big.Int{})
@@ -84,6 +89,58 @@ func enc(v reflect.Value) any {
 	panic("zzverifsrv: cannot encode " + v.Type().String())
 }
 
+// encNode encodes a yaml.Node tree field by field (the names jsonToValue looks up).  An alias node carries a copy of the
+// node it refers to; an alias to a node that is still being encoded (an anchor containing itself) is encoded without target.
+func encNode(n *yaml.Node, open map[*yaml.Node]bool) any {
+	if n == nil {
+		return nil
+	}
+	m := map[string]any{
+		"Kind": json.Number(fmt.Sprint(uint32(n.Kind))), "Style": json.Number(fmt.Sprint(uint32(n.Style))),
+		"Tag": n.Tag, "Value": n.Value, "Anchor": n.Anchor,
+		"HeadComment": n.HeadComment, "LineComment": n.LineComment, "FootComment": n.FootComment,
+		"Line": json.Number(fmt.Sprint(n.Line)), "Column": json.Number(fmt.Sprint(n.Column)),
+	}
+	open[n] = true
+	if n.Alias != nil && !open[n.Alias] {
+		m["Alias"] = encNode(n.Alias, open)
+	}
+	if n.Content != nil {
+		items := make([]any, len(n.Content))
+		for i, c := range n.Content {
+			items[i] = encNode(c, open)
+		}
+		m["Content"] = items
+	}
+	delete(open, n)
+	return m
+}
+
+// yamlDocuments: the real yaml.v3 parser on concrete text (base64): every document of the stream as a node tree, and the
+// error that ended the stream, if it was not its end.
+func yamlDocuments(input string) map[string]any {
+	resp := map[string]any{}
+	text, err := base64.StdEncoding.DecodeString(input)
+	if err != nil {
+		resp["err"] = "zzverifsrv: bad base64 input"
+		return resp
+	}
+	dec := yaml.NewDecoder(bytes.NewReader(text))
+	docs := []any{}
+	for {
+		var n yaml.Node
+		if err := dec.Decode(&n); err != nil {
+			if err != io.EOF {
+				resp["err"] = err.Error()
+			}
+			break
+		}
+		docs = append(docs, encNode(&n, map[*yaml.Node]bool{}))
+	}
+	resp["v"] = docs
+	return resp
+}
+
 func eval(kind, input string) (resp map[string]any) {
 	resp = map[string]any{}
 	defer func() {
@@ -91,6 +148,9 @@ func eval(kind, input string) (resp map[string]any) {
 			resp = map[string]any{"panic": fmt.Sprint(r)}
 		}
 	}()
+	if kind == "yaml.Documents" {
+		return yamlDocuments(input)
+	}
 	var v any
 	var err error
 	switch kind {
